@@ -185,7 +185,6 @@ def spec_c04(tier, seed):
     conds = [
         Cond('c04_chunking', 'c_delimit_step', parts=pairs, timeout=300 if q else 600),
         Cond('c04_chunking', 'c_delimit_three', parts=triples, timeout=300 if q else 600),
-        Cond('c04_chunking', 'c_parser_state_is_its_buffer', timeout=120),
         Cond('c04_chunking', 'c_cut_once', parts=[{'stream': i} for i in range(ns)], timeout=300),
         Cond('c04_chunking', 'c_read_sizes', parts=[{'stream': i} for i in range(ns)], timeout=200),
         Cond('c04_chunking', 'c_message', parts=[{'lm': n} for n in range(0, 13 if q else 17)], timeout=120),
@@ -204,7 +203,7 @@ def spec_c04(tier, seed):
                     'at symbolic offsets (one, or two with the first fixed per process) and at read sizes 1..7 through the '
                     'real TransportTCP + StreamReader + parse_or_ignore equal the one-shot decode. Message mode: one '
                     'message in, exactly that frame (or one invalid marker) out, terminates, buffer empty.',
-        bounds=['L1: len(buffer)+len(chunk) <= %d, all length pairs, contents symbolic; three reads with total <= %d (first two together >= 4 bytes); parser state = buffer only (representation invariant)' % (lim, lim3),
+        bounds=['L1: len(buffer)+len(chunk) <= %d, all length pairs, contents symbolic; three reads with total <= %d (first two together >= 4 bytes)' % (lim, lim3),
                 'L2: 5 concrete streams (%s bytes), every single cut%s, read sizes 1..7' % (lens, '' if q else ', second cut symbolic for every third first cut'),
                 'messages of 0..%d bytes with symbolic content' % (12 if q else 16)],
         outside=['L1 uses a recording stand-in for parse_or_ignore (delimiting never looks inside a frame); frames longer than the bound',
